@@ -100,7 +100,11 @@ type named struct{ Name, Val string }
 var badAddresses = []named{{"empty", ""}, {"trailing-colon", "a:"}, {"leading-colon", ":a"}, {"double-colon", "a::b"}, {"space", "a b"}, {"non-ascii", "é"}, {"bang", "a!b"}, {"at-prefixed", "@a"}}
 var badAssets = []named{{"empty", ""}, {"lowercase", "usd"}, {"double-slash", "USD//2"}, {"trailing-slash", "USD/"}, {"leading-slash", "/2"}, {"digit-first", "9"}, {"dollar", "U$D"}, {"long-precision", "USD/1234567"}, {"long-name", "ABCDEFGHIJKLMNOPQRSTUVWXYZ"}, {"space", "US D"}}
 var badMonetaryStrings = []named{{"no-amount", "USD/2"}, {"negative", "USD/2 -1"}, {"lowercase-asset", "usd 1"}, {"fraction", "USD/2 1.5"}, {"exponent", "USD/2 1e3"}, {"double-slash-asset", "USD//2 1"}, {"no-asset", " 1"}, {"three-parts", "USD/2 1 1"}, {"empty", ""}}
-var badMonetaryObjects = []named{{"asset-invalid", `{"asset":"usd","amount":1}`}, {"amount-negative", `{"asset":"USD/2","amount":-1}`}, {"amount-fraction", `{"asset":"USD/2","amount":1.5}`}, {"amount-string-garbage", `{"asset":"USD/2","amount":"x"}`}, {"amount-1e400", `{"asset":"USD/2","amount":1e400}`}, {"amount-bool", `{"asset":"USD/2","amount":true}`}, {"no-asset", `{"amount":1}`}, {"no-amount", `{"asset":"USD/2"}`}, {"asset-number", `{"asset":5,"amount":1}`}, {"amount-object", `{"asset":"USD/2","amount":{}}`}}
+var badMonetaryObjects = []named{{"asset-invalid", `{"asset":"usd","amount":1}`}, {"amount-negative", `{"asset":"USD/2","amount":-1}`}, {"amount-fraction", `{"asset":"USD/2","amount":1.5}`}, {"amount-string-garbage", `{"asset":"USD/2","amount":"x"}`}, {"amount-bool", `{"asset":"USD/2","amount":true}`}, {"no-asset", `{"amount":1}`}, {"no-amount", `{"asset":"USD/2"}`}, {"asset-number", `{"asset":5,"amount":1}`}, {"amount-object", `{"asset":"USD/2","amount":{}}`}}
+
+// NOT in badMonetaryObjects: {"asset":"USD/2","amount":1e400}. 1e400 is a whole number, so a
+// ledger with arbitrary-precision amounts may accept it; it stays covered as an in-doubt
+// case by the pointer menu (script.vars.monobj.amount = 1e400: 2xx or 4xx, never 5xx).
 var badNumbers = []named{{"fraction", "1.5"}, {"garbage", "abc"}, {"empty", ""}}
 var badPortions = []named{{"above-one", "2/1"}, {"zero-denominator", "1/0"}, {"garbage", "abc"}, {"percent-above-100", "150%"}, {"empty", ""}}
 
@@ -207,7 +211,7 @@ func c38Seeds(importBody string) []Seed {
 	return []Seed{
 		// ---------------- v2 ----------------
 		{API: "v2", Route: "GET /_info", Req: get("/v2/_info")},
-		{API: "v2", Route: "GET /", Name: "list-ledgers", Req: get("/v2", KV{"pageSize", "1"}, KV{"includeDeleted", "false"}, KV{"sort", "id:asc"}), Cursor: "query"},
+		{API: "v2", Route: "GET /", Name: "list-ledgers", Req: get("/v2", KV{"pageSize", "1"}, KV{"includeDeleted", "false"}, KV{"sort", "id:asc"}), Cursor: "query", Extra: []string{"expand"}},
 		{API: "v2", Route: "POST /{ledger}", Name: "create-ledger", Write: true, BodyParsed: true,
 			Req: post("/v2/l3", `{"bucket":"b3","metadata":{"a":"b"},"features":{"HASH_LOGS":"SYNC","MOVES_HISTORY":"ON"}}`)},
 		{API: "v2", Route: "GET /{ledger}", Req: get("/v2/l1")},
@@ -228,9 +232,9 @@ func c38Seeds(importBody string) []Seed {
 			AltBody: `{"chart":{"world":{".self":{}}}}`,
 			Req:     post("/v2/l1/schemas/v1", schemaV1), BodyRequired: true},
 		{API: "v2", Route: "GET /{ledger}/schemas/{version}", Req: get("/v2/ls/schemas/v1")},
-		{API: "v2", Route: "GET /{ledger}/schemas", Req: get("/v2/ls/schemas", KV{"pageSize", "1"}, KV{"sort", "created_at"}, KV{"order", "asc"}), Cursor: "query"},
+		{API: "v2", Route: "GET /{ledger}/schemas", Req: get("/v2/ls/schemas", KV{"pageSize", "1"}, KV{"sort", "created_at"}, KV{"order", "asc"}), Cursor: "query", Extra: []string{"expand"}},
 		{API: "v2", Route: "GET /{ledger}/logs", Name: "filter-body", FilterIn: "body", Cursor: "query", Dates: []string{"pit"},
-			Req: Req{Method: "GET", Path: "/v2/l1/logs", Query: []KV{{"pageSize", "2"}, {"pit", d9}, {"sort", "id:desc"}}, Headers: jsonCT, Body: `{"$and":[{"$gte":{"id":1}},{"$lt":{"date":"2099-01-01T00:00:00Z"}}]}`}},
+			Req: Req{Method: "GET", Path: "/v2/l1/logs", Query: []KV{{"pageSize", "2"}, {"pit", d9}, {"sort", "id:desc"}}, Headers: jsonCT, Body: `{"$and":[{"$gte":{"id":1}},{"$lt":{"date":"2099-01-01T00:00:00Z"}}]}`}, Extra: []string{"expand"}},
 		{API: "v2", Route: "POST /{ledger}/logs/export", Req: post("/v2/l1/logs/export", ``)},
 		{API: "v2", Route: "POST /{ledger}/logs/import", Write: true, NDJSON: true, BodyParsed: true,
 			Req: Req{Method: "POST", Path: "/v2/limp/logs/import", Headers: jh("application/octet-stream"), Body: importBody}},
@@ -251,7 +255,7 @@ func c38Seeds(importBody string) []Seed {
 		{API: "v2", Route: "GET /{ledger}/transactions", Name: "filter-body", FilterIn: "body", Dates: []string{"pit"},
 			Req: Req{Method: "GET", Path: "/v2/l1/transactions", Query: []KV{{"pageSize", "1"}, {"expand", "volumes"}, {"expand", "effectiveVolumes"}, {"pit", d9}, {"order", "effective"}, {"reverse", "true"}}, Headers: jsonCT, Body: txFilter}},
 		{API: "v2", Route: "GET /{ledger}/transactions", Name: "page", Cursor: "query",
-			Req: get("/v2/l1/transactions", KV{"pageSize", "1"}, KV{"sort", "id:desc"})},
+			Req: get("/v2/l1/transactions", KV{"pageSize", "1"}, KV{"sort", "id:desc"}), Extra: []string{"expand"}},
 		{API: "v2", Route: "HEAD /{ledger}/transactions", FilterIn: "body", Dates: []string{"pit"},
 			Req: Req{Method: "HEAD", Path: "/v2/l1/transactions", Query: []KV{{"pit", d9}}, Headers: jsonCT, Body: txFilter}},
 		{API: "v2", Route: "POST /{ledger}/transactions", Name: "postings", Write: true, BodyParsed: true, IK: true,
@@ -278,11 +282,11 @@ func c38Seeds(importBody string) []Seed {
 		{API: "v2", Route: "DELETE /{ledger}/transactions/{id}/metadata/{key}", Write: true, PathID: 4, IK: true,
 			Req: Req{Method: "DELETE", Path: "/v2/l1/transactions/1/metadata/tag"}, AltPath: "/v2/l1/transactions/3/metadata/k"},
 		{API: "v2", Route: "GET /{ledger}/aggregate/balances", FilterIn: "body", Dates: []string{"pit"},
-			Req: Req{Method: "GET", Path: "/v2/l1/aggregate/balances", Query: []KV{{"pit", d9}, {"useInsertionDate", "true"}}, Headers: jsonCT, Body: `{"$or":[{"$match":{"address":"alice"}},{"$match":{"metadata[role]":"user"}}]}`}},
+			Req: Req{Method: "GET", Path: "/v2/l1/aggregate/balances", Query: []KV{{"pit", d9}, {"useInsertionDate", "true"}}, Headers: jsonCT, Body: `{"$or":[{"$match":{"address":"alice"}},{"$match":{"metadata[role]":"user"}}]}`}, Extra: []string{"expand"}},
 		{API: "v2", Route: "GET /{ledger}/volumes", Name: "filter-body", FilterIn: "body", Dates: []string{"startTime", "endTime"},
 			Req: Req{Method: "GET", Path: "/v2/l1/volumes", Query: []KV{{"pageSize", "1"}, {"groupBy", "1"}, {"insertionDate", "true"}, {"startTime", d1}, {"endTime", d9}}, Headers: jsonCT, Body: `{"$and":[{"$match":{"account":"alice"}},{"$gte":{"balance[USD/2]":0}}]}`}},
 		{API: "v2", Route: "GET /{ledger}/volumes", Name: "page", Cursor: "query",
-			Req: get("/v2/l1/volumes", KV{"pageSize", "1"})},
+			Req: get("/v2/l1/volumes", KV{"pageSize", "1"}), Extra: []string{"expand"}},
 		{API: "v2", Route: "POST /{ledger}/queries/{id}/run", Name: "accounts", BodyParsed: true, Cursor: "body",
 			Req: post("/v2/ls/queries/BYADDR/run", `{"params":{"pageSize":1,"sort":"address:asc","expand":["volumes"],"endTime":"2023-12-01T00:00:00Z"},"vars":{"prefix":"users:","min":1}}`, KV{"schemaVersion", "v1"})},
 		{API: "v2", Route: "POST /{ledger}/queries/{id}/run", Name: "transactions", BodyParsed: true,
@@ -293,27 +297,27 @@ func c38Seeds(importBody string) []Seed {
 		{API: "v1", Route: "GET /{ledger}/_info", Req: get("/l1/_info")},
 		{API: "v1", Route: "GET /{ledger}/stats", Req: get("/l1/stats")},
 		{API: "v1", Route: "GET /{ledger}/logs", Cursor: "query", Dates: []string{"start_time", "end_time"},
-			Req: get("/l1/logs", KV{"pageSize", "2"}, KV{"start_time", d1}, KV{"end_time", "2099-01-01T00:00:00Z"}), Extra: []string{"after", "page_size"}},
-		{API: "v1", Route: "GET /{ledger}/accounts", Name: "filtered",
-			Req: get("/l1/accounts", KV{"pageSize", "1"}, KV{"address", "alice"}, KV{"metadata[role]", "user"}), Extra: []string{"after", "page_size"}},
+			Req: get("/l1/logs", KV{"pageSize", "2"}, KV{"start_time", d1}, KV{"end_time", "2099-01-01T00:00:00Z"}), Extra: []string{"after", "page_size", "expand"}},
+		{API: "v1", Route: "GET /{ledger}/accounts", Name: "filtered", Dates: []string{"pit"},
+			Req: get("/l1/accounts", KV{"pageSize", "1"}, KV{"address", "alice"}, KV{"metadata[role]", "user"}), Extra: []string{"after", "page_size", "expand", "pit"}},
 		// every account of ledger ls holds a single asset: the v1 "balance" filter compares a scalar subquery
 		{API: "v1", Route: "GET /{ledger}/accounts", Name: "balance",
 			Req: get("/ls/accounts", KV{"balance", "7"}, KV{"balanceOperator", "gte"})},
 		{API: "v1", Route: "GET /{ledger}/accounts", Name: "page", Cursor: "query",
 			Req: get("/l1/accounts", KV{"pageSize", "1"})},
-		{API: "v1", Route: "HEAD /{ledger}/accounts",
+		{API: "v1", Route: "HEAD /{ledger}/accounts", Dates: []string{"pit"}, Extra: []string{"expand", "pit"},
 			Req: Req{Method: "HEAD", Path: "/l1/accounts", Query: []KV{{"address", "alice"}, {"metadata[role]", "user"}}}},
 		{API: "v1", Route: "GET /{ledger}/accounts/{address}", PathAddr: 3, Req: get("/l1/accounts/alice")},
 		{API: "v1", Route: "POST /{ledger}/accounts/{address}/metadata", Write: true, BodyParsed: true, PathAddr: 3, IK: true, AltBody: `{"role":"other"}`,
 			Req: post("/l1/accounts/alice/metadata", `{"role":"admin","since":"2020"}`), BodyRequired: true},
 		{API: "v1", Route: "DELETE /{ledger}/accounts/{address}/metadata/{key}", Write: true, PathAddr: 3,
 			Req: Req{Method: "DELETE", Path: "/l1/accounts/alice/metadata/role"}},
-		{API: "v1", Route: "GET /{ledger}/transactions", Name: "filtered", Dates: []string{"startTime", "endTime"},
-			Extra: []string{"after", "page_size"},
+		{API: "v1", Route: "GET /{ledger}/transactions", Name: "filtered", Dates: []string{"startTime", "endTime", "pit"},
+			Extra: []string{"after", "page_size", "expand", "pit"},
 			Req:   get("/l1/transactions", KV{"pageSize", "1"}, KV{"account", "alice"}, KV{"source", "world"}, KV{"destination", "alice"}, KV{"reference", "ref1"}, KV{"startTime", d1}, KV{"endTime", d9}, KV{"metadata[k]", "v"})},
 		{API: "v1", Route: "GET /{ledger}/transactions", Name: "page", Cursor: "query", Dates: []string{"start_time", "end_time"},
 			Req: get("/l1/transactions", KV{"pageSize", "1"}, KV{"start_time", d1}, KV{"end_time", d9})},
-		{API: "v1", Route: "HEAD /{ledger}/transactions", Dates: []string{"startTime", "endTime"},
+		{API: "v1", Route: "HEAD /{ledger}/transactions", Dates: []string{"startTime", "endTime", "pit"}, Extra: []string{"expand", "pit"},
 			Req: Req{Method: "HEAD", Path: "/l1/transactions", Query: []KV{{"account", "alice"}, {"source", "world"}, {"destination", "alice"}, {"reference", "ref1"}, {"startTime", d1}, {"endTime", d9}, {"metadata[k]", "v"}}}},
 		{API: "v1", Route: "POST /{ledger}/transactions", Name: "postings", Write: true, BodyParsed: true, IK: true,
 			AltBody:    `{"postings":[{"source":"world","destination":"dave","asset":"USD/2","amount":8}]}`,
@@ -334,10 +338,10 @@ func c38Seeds(importBody string) []Seed {
 		{API: "v1", Route: "DELETE /{ledger}/transactions/{id}/metadata/{key}", Write: true, PathID: 3,
 			Req: Req{Method: "DELETE", Path: "/l1/transactions/1/metadata/tag"}},
 		{API: "v1", Route: "GET /{ledger}/balances", Name: "filtered",
-			Req: get("/l1/balances", KV{"address", "alice"}, KV{"pageSize", "1"}), Extra: []string{"after"}},
+			Req: get("/l1/balances", KV{"address", "alice"}, KV{"pageSize", "1"}), Extra: []string{"after", "expand"}},
 		{API: "v1", Route: "GET /{ledger}/balances", Name: "page", Cursor: "query",
 			Req: get("/l1/balances", KV{"pageSize", "1"})},
-		{API: "v1", Route: "GET /{ledger}/aggregate/balances",
+		{API: "v1", Route: "GET /{ledger}/aggregate/balances", Dates: []string{"pit"}, Extra: []string{"expand", "pit"},
 			Req: get("/l1/aggregate/balances", KV{"address", "alice"}, KV{"useInsertionDate", "true"})},
 	}
 }
